@@ -551,10 +551,11 @@ func runHistory(cs Case) (probs []problem, iters []mapord.Iter, complete bool, o
 }
 
 type explorer struct {
-	c        *core.Ctx
-	alpha    []Op
-	maxDevs  int
-	devDepth int // histories up to this depth are also run under deviations
+	lastReadsOnly bool // the deepest level tries read operations only
+	c             *core.Ctx
+	alpha         []Op
+	maxDevs       int
+	devDepth      int // histories up to this depth are also run under deviations
 }
 
 func (e *explorer) report(cs Case, ps []problem) {
@@ -628,6 +629,11 @@ func (e *explorer) dfs(cs Case, depth int) {
 		return
 	}
 	for _, o := range e.alpha {
+		// the deepest level of the thorough tier observes only: a history's last operation shows its
+		// effect through the reads (and execution counts) that follow it, and nothing follows it
+		if e.lastReadsOnly && len(cs.Ops) == depth-1 && o.Kind != "read" {
+			continue
+		}
 		if len(cs.Ops) == 1 && !e.c.Next() {
 			continue
 		}
@@ -651,13 +657,13 @@ func run(c *core.Ctx) {
 	alpha := alphabet()
 	depth, devDepth, maxDevs := 4, 4, 1
 	if c.Thorough() {
-		depth, devDepth, maxDevs = 6, 5, 1
+		depth, devDepth, maxDevs = 5, 4, 1 // level 5: reads only
 	}
 	c.Bound("alphabet", len(alpha))
 	c.Bound("history_depth", depth)
 	c.Bound("map_order_single_deviations_up_to_depth", devDepth)
 	for _, seed := range seeds {
-		e := &explorer{c: c, alpha: alpha, maxDevs: maxDevs, devDepth: devDepth}
+		e := &explorer{c: c, alpha: alpha, maxDevs: maxDevs, devDepth: devDepth, lastReadsOnly: c.Thorough()}
 		e.dfs(Case{Seed: seed}, depth)
 	}
 	if c.Thorough() {
